@@ -61,7 +61,7 @@ Definition I3 : Mat33 R := m33_id ROps.
 Definition O3 : Vec3 R := (0,0,0).
 Lemma orth_I3 : orth I3. Proof. unfold orth, I3. vunf. teq; ring. Qed.
 (** two real functions with the same derivative value claims: uniqueness *)
-Lemma is_derive_same f x a b : is_derive f x a -> is_derive f x b -> a = b.
+Lemma is_derive_same (f:R->R) (x a b:R) : is_derive f x a -> is_derive f x b -> a = b.
 Proof. intros Ha Hb. apply is_derive_unique in Ha. apply is_derive_unique in Hb. congruence. Qed.
 
 (** the station of body B coincident with a point given in A, re-expressed in A, along the motion *)
